@@ -279,7 +279,7 @@ def check_state(ctx, model, w, hist, routes=None, perm=None):
                       '%s after %s, %s, derived_attributes=%s, route %s: %s' %
                       (model.base, json.dumps(hist), 'component %s' % scope[1] if scope[1] else 'whole model', derived,
                        route, msg), exp, obs,
-                      unit_test=unit_test(model.base, w, scope[1], derived, route, line, text))
+                      unit_test=unit_test(model.base, w, scope[1], derived, route, line))
 
     def compare(route, scope, derived, exp, obs):
         diffs = bp.diff_schema(exp, obs)
@@ -407,8 +407,11 @@ def check_state(ctx, model, w, hist, routes=None, perm=None):
                 compare('main', s, der, expected[(s[0], der)], obs)
 
 
-def unit_test(base, w, comp_name, derived, route, line, text):
-    lines = bp.snippet_model(base, w)
+def unit_test(base, w, comp_name, derived, route, line):
+    if route == 'reversed':
+        lines = ['text = %r    # the INSERT statements of the model in reverse order' % bp.render(bp.reversed_rows(w.rows))]
+    else:
+        lines = bp.snippet_model(base, w)
     lines += ['import xtuml',
               'from bridgepoint import ooaofooa',
               'l = ooaofooa.ModelLoader()',
@@ -423,8 +426,6 @@ def unit_test(base, w, comp_name, derived, route, line, text):
                   'l2 = xtuml.ModelLoader(); l2.filename_input(path); m2 = l2.build_metamodel()',
                   's = xtuml.serialize_schema(m2) + xtuml.serialize_unique_identifiers(m2)',
                   'print(s)']
-    if route in ('reversed', 'roworder'):
-        lines.append('# (the check permutes the INSERT statements of the model text before loading; see the case)')
     if line:
         lines.append('assert %r in s, "expected definition is missing"' % ('CREATE ROP REF_ID ' + line + ';'))
     else:
